@@ -80,22 +80,64 @@ type Info struct {
 	EqualsReference bool
 }
 
-// collector receives streamed operations.
-type collector struct{ delta []*rsync.Operation }
+// scratch is the per-worker state of the judge: the engine under test (reused
+// across cases on purpose, its buffers are meant to be reused) and buffers
+// that keep the enumeration allocation-free.
+type scratch struct {
+	eng     *rsync.Engine
+	arena   []byte
+	dst     *[]Op
+	invalid string
+	ops     []Op
+	sops    []Op
+	ref     []Op
+	patchOp *rsync.Operation
+	out     bytes.Buffer
+	baseRd  *bytes.Reader
+	targRd  *bytes.Reader
+	xmit    rsync.OperationTransmitter
+}
 
-func (c *collector) transmit(o *rsync.Operation) error {
-	c.delta = append(c.delta, &rsync.Operation{Data: append([]byte(nil), o.Data...), Start: o.Start, Count: o.Count})
-	return nil
+func newScratch() *scratch {
+	s := &scratch{eng: rsync.NewEngine(), patchOp: &rsync.Operation{}, baseRd: bytes.NewReader(nil), targRd: bytes.NewReader(nil)}
+	s.xmit = func(o *rsync.Operation) error {
+		// Validate the operation as transmitted, then detach it from the
+		// engine's reused buffers.
+		if s.invalid == "" {
+			if err := o.EnsureValid(); err != nil {
+				s.invalid = fmt.Sprintf("operation %d fails EnsureValid: %v", len(*s.dst), err)
+			}
+		}
+		op := Op{Start: o.Start, Count: o.Count}
+		if len(o.Data) > 0 {
+			at := len(s.arena)
+			s.arena = append(s.arena, o.Data...)
+			op.Data = s.arena[at:len(s.arena):len(s.arena)]
+		}
+		*s.dst = append(*s.dst, op)
+		return nil
+	}
+	return s
+}
+
+// options of one judge call.
+type options struct {
+	sig        *rsync.Signature  // precomputed signature of (base, bs), or nil
+	sigChecked bool              // its shape was verified already
+	lookup     map[string]uint64 // precomputed full-block lookup, or nil
+	keepRef    bool              // s.ref is valid for this (base, bs, target)
+	stream     bool              // also run the one-byte-per-read streaming variant
+	bytesAPI   bool              // go through DeltifyBytes / PatchBytes
 }
 
 // refLimit bounds len(target)*blockSize for the hash-free reference matcher.
 const refLimit = 1 << 24
 
-// judgeC19 runs the C19 oracle on one input. sig/lookup may be passed in when
-// the caller already holds them for (base, bs); sigChecked tells that the
-// signature shape was verified already.
-func judgeC19(eng *rsync.Engine, base, target []byte, bs, m uint64, sig *rsync.Signature, sigChecked bool, lookup map[string]uint64, viaBytesAPI bool) (string, Info) {
+// judgeC19 runs the C19 oracle on one input.
+func judgeC19(s *scratch, base, target []byte, bs, m uint64, opt options) (string, Info) {
 	var info Info
+	eng := s.eng
+	sig := opt.sig
 	if sig == nil {
 		sig = eng.BytesSignature(base, bs)
 	}
@@ -109,7 +151,7 @@ func judgeC19(eng *rsync.Engine, base, target []byte, bs, m uint64, sig *rsync.S
 			bs = 1
 		}
 	}
-	if !sigChecked {
+	if !opt.sigChecked {
 		if v := checkSignature(sig, base, bs); v != "" {
 			return v, info
 		}
@@ -117,19 +159,32 @@ func judgeC19(eng *rsync.Engine, base, target []byte, bs, m uint64, sig *rsync.S
 	blocks := blockCount(len(base), bs)
 
 	// The delta, through the API under observation.
+	s.arena = s.arena[:0]
+	s.ops = s.ops[:0]
+	s.invalid = ""
 	var delta []*rsync.Operation
-	if viaBytesAPI {
+	if opt.bytesAPI {
 		delta = eng.DeltifyBytes(target, sig, m)
+		s.dst = &s.ops
+		for _, o := range delta {
+			if o == nil {
+				return "DeltifyBytes returned a nil operation", info
+			}
+			s.xmit(o)
+		}
 	} else {
-		var c collector
-		if err := eng.Deltify(bytes.NewReader(target), sig, m, c.transmit); err != nil {
+		s.dst = &s.ops
+		s.targRd.Reset(target)
+		if err := eng.Deltify(s.targRd, sig, m, s.xmit); err != nil {
 			return fmt.Sprintf("Deltify of an in-memory target failed: %v", err), info
 		}
-		delta = c.delta
 	}
-	ops, v := checkOps(delta, blocks, m)
-	if v != "" {
-		return v + " | delta: " + renderDelta(delta), info
+	ops := s.ops
+	if s.invalid != "" {
+		return s.invalid + " | delta: " + renderOps(ops), info
+	}
+	if v := checkOps(ops, blocks, m); v != "" {
+		return v + " | delta: " + renderOps(ops), info
 	}
 	info.Ops = ops
 	info.Blocks, info.Datas = countKinds(ops)
@@ -148,16 +203,28 @@ func judgeC19(eng *rsync.Engine, base, target []byte, bs, m uint64, sig *rsync.S
 		}
 	}
 
-	// Reconstruction, by the model and by the engine.
-	if got, ok := modelPatch(base, bs, ops); !ok {
-		return "delta refers to blocks outside the base: " + renderOps(ops), info
-	} else if !bytes.Equal(got, target) {
-		return fmt.Sprintf("applying the delta to the base (slice model) gives %s, target is %s | delta: %s", show(got), show(target), renderOps(ops)), info
+	// Reconstruction, by the slice model and by the engine.
+	if v := modelPatchEquals(base, bs, ops, target); v != "" {
+		return v + " | delta: " + renderOps(ops), info
 	}
-	if got, err := eng.PatchBytes(base, sig, delta); err != nil {
-		return fmt.Sprintf("PatchBytes failed on the engine's own delta: %v | delta: %s", err, renderOps(ops)), info
-	} else if !bytes.Equal(got, target) {
-		return fmt.Sprintf("PatchBytes gives %s, target is %s | delta: %s", show(got), show(target), renderOps(ops)), info
+	if opt.bytesAPI {
+		if got, err := eng.PatchBytes(base, sig, delta); err != nil {
+			return fmt.Sprintf("PatchBytes failed on the engine's own delta: %v | delta: %s", err, renderOps(ops)), info
+		} else if !bytes.Equal(got, target) {
+			return fmt.Sprintf("PatchBytes gives %s, target is %s | delta: %s", show(got), show(target), renderOps(ops)), info
+		}
+	} else {
+		s.out.Reset()
+		s.baseRd.Reset(base)
+		for i, o := range ops {
+			s.patchOp.Data, s.patchOp.Start, s.patchOp.Count = o.Data, o.Start, o.Count
+			if err := eng.Patch(&s.out, s.baseRd, sig, s.patchOp); err != nil {
+				return fmt.Sprintf("Patch failed on operation %d of the engine's own delta: %v | delta: %s", i, err, renderOps(ops)), info
+			}
+		}
+		if !bytes.Equal(s.out.Bytes(), target) {
+			return fmt.Sprintf("Patch gives %s, target is %s | delta: %s", show(s.out.Bytes()), show(target), renderOps(ops)), info
+		}
 	}
 
 	// An unchanged target needs no literal data.
@@ -166,46 +233,38 @@ func judgeC19(eng *rsync.Engine, base, target []byte, bs, m uint64, sig *rsync.S
 	}
 
 	// Streaming Deltify fed one byte per Read gives the same operations.
-	if len(target) <= 1<<18 {
-		var c collector
-		if err := eng.Deltify(iotest.OneByteReader(bytes.NewReader(target)), sig, m, c.transmit); err != nil {
+	if opt.stream {
+		s.sops = s.sops[:0]
+		s.dst = &s.sops
+		s.targRd.Reset(target)
+		if err := eng.Deltify(iotest.OneByteReader(s.targRd), sig, m, s.xmit); err != nil {
 			return fmt.Sprintf("streaming Deltify failed: %v", err), info
 		}
-		sops := make([]Op, len(c.delta))
-		for i, o := range c.delta {
-			sops[i] = copyOp(o)
+		if s.invalid != "" {
+			return "streaming: " + s.invalid, info
 		}
-		if !opsEqual(ops, sops) {
-			return fmt.Sprintf("streaming Deltify (one byte per read) yields %s, in-memory yields %s", renderOps(sops), renderOps(ops)), info
+		if !opsEqual(ops, s.sops) {
+			return fmt.Sprintf("streaming Deltify (one byte per read) yields %s, in-memory yields %s", renderOps(s.sops), renderOps(ops)), info
 		}
 	}
 
 	// No matchable block is missed: the literal volume does not exceed that of
 	// the hash-free greedy reference.
 	if uint64(len(target))*bs <= refLimit {
-		if lookup == nil {
-			lookup = fullBlockLookup(base, bs)
+		if !opt.keepRef {
+			lookup := opt.lookup
+			if lookup == nil {
+				lookup = fullBlockLookup(base, bs)
+			}
+			s.ref = referenceDelta(s.ref[:0], base, target, bs, lookup)
 		}
-		ref := referenceDelta(base, target, bs, lookup)
 		info.RefCompared = true
-		info.EqualsReference = opsEqual(normalize(ops), ref)
-		if lb, lr := literalBytes(ops), literalBytes(ref); lb > lr {
-			return fmt.Sprintf("delta carries %d literal bytes where greedy block matching by direct comparison needs %d | delta: %s | reference: %s", lb, lr, renderOps(ops), renderOps(ref)), info
+		info.EqualsReference = equalsNormalized(ops, s.ref)
+		if lb, lr := literalBytes(ops), literalBytes(s.ref); lb > lr {
+			return fmt.Sprintf("delta carries %d literal bytes where greedy block matching by direct comparison needs %d | delta: %s | reference: %s", lb, lr, renderOps(ops), renderOps(s.ref)), info
 		}
 	}
 	return "", info
-}
-
-func renderDelta(delta []*rsync.Operation) string {
-	ops := make([]Op, 0, len(delta))
-	for _, o := range delta {
-		if o == nil {
-			ops = append(ops, Op{})
-			continue
-		}
-		ops = append(ops, copyOp(o))
-	}
-	return renderOps(ops)
 }
 
 func show(p []byte) string {
@@ -302,7 +361,8 @@ func TestC19_Exhaustive(t *testing.T) {
 		wg.Add(1)
 		go func() {
 			defer wg.Done()
-			eng := rsync.NewEngine()
+			sc := newScratch()
+			eng := sc.eng
 			for bi := range work {
 				base := strs[bi]
 				tl := &tally{classes: map[string]uint64{}}
@@ -320,8 +380,10 @@ func TestC19_Exhaustive(t *testing.T) {
 					}
 					lookup := fullBlockLookup(base, bs)
 					for ti, target := range strs {
-						for _, m := range maxDataOps() {
-							v, info := judgeC19(eng, base, target, bs, m, sig, true, lookup, false)
+						for mi, m := range maxDataOps() {
+							// The reference depends on (base, bs, target) only; the
+							// streaming variant runs for the smallest limit (most operations).
+							v, info := judgeC19(sc, base, target, bs, m, options{sig: sig, sigChecked: true, lookup: lookup, keepRef: mi > 0, stream: mi == 0})
 							tl.count(&info)
 							if v != "" {
 								mu.Lock()
@@ -461,7 +523,7 @@ func drawCase(rt *rapid.T) *Case {
 	return &Case{Recipe: r, BlockSize: bs, MaxDataOp: m}
 }
 
-func runRandomCase(eng *rsync.Engine, c *Case) (string, Info, []byte, []byte) {
+func runRandomCase(sc *scratch, c *Case) (string, Info, []byte, []byte) {
 	base, target := c.bytes()
 	m := c.MaxDataOp
 	// Keep the number of literal operations bounded (each is an allocation).
@@ -469,7 +531,7 @@ func runRandomCase(eng *rsync.Engine, c *Case) (string, Info, []byte, []byte) {
 		m = uint64(len(target))/200000 + 1
 		c.MaxDataOp = m
 	}
-	v, info := judgeC19(eng, base, target, c.BlockSize, m, nil, false, nil, true)
+	v, info := judgeC19(sc, base, target, c.BlockSize, m, options{stream: len(target) <= 1<<18, bytesAPI: true})
 	return v, info, base, target
 }
 
@@ -478,11 +540,11 @@ func TestC19_Random(t *testing.T) {
 		t.Skip()
 	}
 	rec := ev.New(t, "C19", "random-edits", "rapid: bases of 0..1 MiB (four alphabets, optionally periodic so that blocks repeat), target derived by a script of insert/delete/duplicate/move/flip/weak-hash-twin/truncate/append edits mostly aligned to the block size; block size 1, small, |base|, |base|+-1, optimal, random; max data op default, 1, small, around the block size, random; "+ruleC19)
-	eng := rsync.NewEngine()
+	sc := newScratch()
 	tl := &tally{classes: map[string]uint64{}}
 	ev.Check(t, rec, 5000, 60000, func(rt *rapid.T) {
 		c := drawCase(rt)
-		v, info, base, target := runRandomCase(eng, c)
+		v, info, base, target := runRandomCase(sc, c)
 		if v != "" {
 			fc := c
 			if len(base)+len(target) <= 8192 {
